@@ -1,13 +1,19 @@
-(* C10 — compiled kernels never access memory outside their arrays: the safety halves of the kernel models.
-   Each statement says that every index the modelled kernel reads or writes is inside the array it indexes.
-   (Further kernels are added as their index-level models land: accumulator, EM update, BPE contraction,
-   sparse-vector merges.) *)
-From Coq Require Import ZArith List Lia.
+(* C10 — compiled kernels never access memory outside their arrays: the safety halves of the index-level kernel
+   models.  Every model below performs *checked* array accesses (a read or write outside the array, or the use of a
+   loop variable that was never assigned, makes the model return an error value); each theorem says that on every
+   valid input the model returns a proper result, i.e. no access leaves its array.  The functional halves of the same
+   theorems are in the property files of the kernels (C04, C09, C17, C18, C19; C11 and C03 add the EM update and the
+   window kernels). *)
+From Coq Require Import ZArith List Lia Sorted.
 From VZ Require Import Model.K14_Sliding Proofs.K14_Sliding_proofs.
+From VZ Require Import Model.K01_CooAcc Proofs.K01_CooAcc_list Proofs.K01_CooAcc_arrays Proofs.K01_CooAcc_proofs.
+From VZ Require Import Model.K8_BPE Proofs.K8_BPE_proofs.
+From VZ Require Import Model.K11_SparseVec Model.K13_InfoWeight.
+From VZ Require Properties.C04 Properties.C09 Properties.C17 Properties.C18.
 Import ListNotations.
 
-(* sliding_windows: every element index read for window i, sample position j is inside the (padded) sequence,
-   and np.empty((n_rows, ...)) is written at exactly the rows 0..n_rows-1 *)
+(* ---- sliding_windows: every element index read for window i, sample position j is inside the (padded) sequence,
+        every slice [i*stride, i*stride+width) is complete, so np.empty((n_rows, ..)) is fully overwritten *)
 Theorem C10_sliding_reads : forall width stride sample len i j,
   (0 < stride)%nat -> (width <= len)%nat -> Forall (fun j => (j < width)%nat) sample ->
   (i < n_rows len width stride)%nat -> In j sample -> (i * stride + j < len)%nat.
@@ -18,3 +24,54 @@ Theorem C10_sliding_slice_full : forall len width stride i,
   (0 < stride)%nat -> (width <= len)%nat -> (i < n_rows len width stride)%nat -> (i * stride + width <= len)%nat.
 Proof. exact n_rows_in_range. Qed.
 Print Assumptions C10_sliding_slice_full.
+
+(* ---- the COO accumulator (coo_append, coo_sum_duplicates, merge_sum_duplicates, merge_all_sum_duplicates,
+        coo_increase_mem): no out-of-bounds access for every threshold, capacity >= 20, every event list within the
+        level-counter bound (see C04_acc_total for the bound and what lies outside it) *)
+Theorem C10_coo : forall limit cap mlen (evs : list entry),
+  (1 <= limit)%Z -> (20 <= cap)%Z -> Forall (fun e => (0 <= e_key e)%Z) evs ->
+  (2 * zlen evs + 2 < 2 ^ (mlen - 1))%Z ->
+  exists s, run limit cap mlen evs = K01_CooAcc.Ok s.
+Proof.
+  intros limit cap mlen evs H1 H2 H3 H4.
+  destruct (C04.C04_acc_total limit cap mlen evs H1 H2 H3 H4) as (s & E & _). exists s. exact E.
+Qed.
+Print Assumptions C10_coo.
+
+(* ---- BPE contraction kernels: contract_pair's array loop (output buffer, skip flag, tail copy) and bpe_encode
+        never leave their arrays and never read an unassigned loop variable — for every length, 0 and 1 included *)
+Theorem C10_bpe_contract : forall cl a b c, exists r, contract_pair_arr cl a b c = K8_BPE.Ok r.
+Proof. intros. eexists. apply C09.C09_contract_refines. Qed.
+Print Assumptions C10_bpe_contract.
+
+Theorem C10_bpe_encode : forall ms mcc s, exists r, bpe_encode ms mcc s = K8_BPE.Ok r.
+Proof. intros. eexists. apply C09.C09_encode_safe. Qed.
+Print Assumptions C10_bpe_encode.
+
+(* ---- sparse vector helpers (merge loop + both tail-copy loops write into buffers of length |union| / |intersect|) *)
+Theorem C10_sparse_sum : forall ind1 data1 ind2 data2,
+  StronglySorted Z.lt ind1 -> length ind1 = length data1 ->
+  StronglySorted Z.lt ind2 -> length ind2 = length data2 ->
+  exists r, sparse_sum_Z ind1 data1 ind2 data2 = Some r.
+Proof.
+  intros ind1 data1 ind2 data2 S1 L1 S2 L2.
+  destruct (C18.C18_sparse_sum_Z ind1 data1 ind2 data2 S1 L1 S2 L2) as (ri & rd & E & _). eexists. exact E.
+Qed.
+Print Assumptions C10_sparse_sum.
+
+Theorem C10_sparse_mul : forall ind1 data1 ind2 data2,
+  StronglySorted Z.lt ind1 -> length ind1 = length data1 ->
+  StronglySorted Z.lt ind2 -> length ind2 = length data2 ->
+  exists r, sparse_mul_Z ind1 data1 ind2 data2 = Some r.
+Proof.
+  intros ind1 data1 ind2 data2 S1 L1 S2 L2.
+  destruct (C18.C18_sparse_mul_Z ind1 data1 ind2 data2 S1 L1 S2 L2) as (ri & rd & E & _). eexists. exact E.
+Qed.
+Print Assumptions C10_sparse_mul.
+
+(* ---- information weight kernel: the binary search lands on a stored position whenever the row is present and the
+        column's indices are sorted (what the conversion step guarantees) *)
+Theorem C10_infoweight_search : forall (a : list Z) (v : Z),
+  StronglySorted Z.lt a -> In v a -> exists x, nth_error a (searchsorted a v) = Some x.
+Proof. intros a v S I. exists v. apply C17.C17_search_sorted; assumption. Qed.
+Print Assumptions C10_infoweight_search.
